@@ -9,7 +9,6 @@ use crate::{
   visitor::{self, *},
 };
 
-use core::convert::TryInto;
 use std::{
   borrow::Cow,
   convert::TryFrom,
@@ -3959,7 +3958,11 @@ where
           1 => {
             if is_ident_time_data_type(self.state.cddl, ident) {
               if let Value::Integer(value) = *value.as_ref() {
-                let dt = Utc.timestamp_opt(value.try_into().unwrap(), 0);
+                // an integer beyond the i64 range is not a representable timestamp
+                let dt = match i64::try_from(value) {
+                  Ok(seconds) => Utc.timestamp_opt(seconds, 0),
+                  Err(_) => chrono::LocalResult::None,
+                };
                 if let chrono::LocalResult::None = dt {
                   self.add_error(format!(
                     "expected time data type, invalid UNIX timestamp {:?}",
